@@ -415,6 +415,26 @@ fn build(seed: u64, version: u16, variant: u64, symbolic: bool) -> (w::Dwarf, w:
             ])),
         )
     };
+    // second lists, so that list references with NON-ZERO section offsets exist
+    let (ranges2, locs2) = if variant == 0 {
+        (
+            unit.ranges.add(w::RangeList(vec![w::Range::StartEnd { begin: a(0, 0x40), end: a(0, 0x48) }])),
+            unit.locations.add(w::LocationList(vec![w::Location::StartEnd {
+                begin: a(1, 0x40),
+                end: a(1, 0x48),
+                data: w::Expression::new(),
+            }])),
+        )
+    } else {
+        (
+            unit.ranges.add(w::RangeList(vec![w::Range::OffsetPair { begin: 0x40, end: 0x48 }])),
+            unit.locations.add(w::LocationList(vec![w::Location::OffsetPair {
+                begin: 0x40,
+                end: 0x48,
+                data: w::Expression::new(),
+            }])),
+        )
+    };
     let root = unit.root();
     {
         let r = unit.get_mut(root);
@@ -442,6 +462,8 @@ fn build(seed: u64, version: u16, variant: u64, symbolic: bool) -> (w::Dwarf, w:
         e.set(gimli::DW_AT_low_pc, w::AttributeValue::Address(a(0, 0x10)));
         e.set(gimli::DW_AT_high_pc, w::AttributeValue::Udata(0x10));
         e.set(gimli::DW_AT_frame_base, w::AttributeValue::LocationListRef(locs));
+        e.set(gimli::DW_AT_ranges, w::AttributeValue::RangeListRef(ranges2));
+        e.set(gimli::DW_AT_return_addr, w::AttributeValue::LocationListRef(locs2));
         e.set(gimli::DW_AT_name, w::AttributeValue::String(b"f".to_vec()));
     }
     // frame table: two CIEs, FDEs on both
@@ -475,7 +497,12 @@ fn rel_json_sec(r: &Relocation) -> Value {
         RelocationTarget::Symbol(s) => ("sym", s as i64 + 1),
         RelocationTarget::Section(_) => ("sec", 0),
     };
-    json!({"off": r.offset, "size": r.size, "tk": tk, "t": t, "add": bv(r.addend as u64, 8),
+    // `ts`: name of the section the relocation is against ("" for a symbol)
+    let ts = match r.target {
+        RelocationTarget::Section(id) => id.name(),
+        RelocationTarget::Symbol(_) => "",
+    };
+    json!({"off": r.offset, "size": r.size, "tk": tk, "t": t, "ts": ts, "add": bv(r.addend as u64, 8),
            "pe": r.eh_pe.map(|p| p.0 as i64).unwrap_or(-1)})
 }
 
@@ -631,6 +658,7 @@ fn record_inner(out: &str, a: &Args) {
             evs.push(json!({"ev":"WSection","sec":id.name(),"ver":version,"rec":bytes_json(&bytes),
                 "rels": rels.iter().map(rel_json_sec).collect::<Vec<_>>(),
                 "dir": bytes_json(direct.get(&id).map(|d| &d[..]).unwrap_or(&[])),
+                "lens": direct.iter().map(|(k, v)| json!([k.name(), v.len()])).collect::<Vec<_>>(),
                 "sym": [bv(SYMVAL[0], 8), bv(SYMVAL[1], 8)]}));
             let mut wrel: Vec<(usize, usize)> = rels.iter().map(|r| (r.offset, r.size as usize)).collect();
             wrel.sort();
